@@ -16,6 +16,7 @@ RULE = (
     "class attributes unchanged, and a probe rule converted afterwards on the same backend equals its fresh conversion. "
     "non-trivial = history with >= 1 failing rule and >= 1 other rule."
 )
+RULE += (" " + 'The menu includes multi-condition rules whose later condition fails and a good rule sharing its nested condition text with a failing rule; the stand-alone references are computed with emptied module caches of the library.')
 ASSUMPTIONS = ["per-rule fresh conversion (new backend class instance, new pipeline from the same dict, freshly loaded rule) is the reference",
                "errors are compared by type and message"]
 MENU = ["ok1", "ok2", "ok_lin", "off", "F_pipe", "F_item", "F_ph", "F_type", "F_cond", "F_neg", "ok_cased_sw", "F_cond2", "F_ph2"]
